@@ -6,6 +6,7 @@ Full statements: `ZV/Props/C03Statements.lean`; a statement counts as proved onl
 import ZV.Model.ZCore
 import ZV.Model.ZCoreSpec
 import ZV.Props.C03Statements
+import ZV.Proofs.ZCoreCheck
 
 namespace ZV.Props.C03
 open ZV.ZCore
@@ -15,5 +16,23 @@ theorem accepted_only_at_os (Δ : Sig) (body : C) (h : checkProgram Δ body = .o
     inferC Δ [] body = .ok .os := by
   unfold checkProgram at h
   split at h <;> simp_all
+
+/-- Type equality tests are exact. -/
+theorem beq_exact : Statement.beq_exact := ZV.ZCore.beq_exact_pf
+
+/-- **Soundness**: every accepted term is derivable in the declared rules. -/
+theorem check_sound : Statement.check_sound := ZV.ZCore.check_sound_pf
+
+/-- **Completeness**: every derivable term is accepted, at that type. -/
+theorem check_complete : Statement.check_complete := ZV.ZCore.check_complete_pf
+
+/-- Types are unique. -/
+theorem type_unique : Statement.type_unique := ZV.ZCore.type_unique_pf
+
+/-- **Definite errors**: whatever the checker rejects has no derivation at any type. -/
+theorem rejected_has_no_type : Statement.rejected_has_no_type := ZV.ZCore.rejected_has_no_type_pf
+
+/-- Acceptance of a program is derivability of `⊢ body : OS`. -/
+theorem program_accepted_iff : Statement.program_accepted_iff := ZV.ZCore.program_accepted_iff_pf
 
 end ZV.Props.C03
